@@ -143,6 +143,16 @@ StartFwd ==
           /\ call' = [api |-> "fwd", H |-> hw[1], W |-> hw[2], J |-> J]
           /\ rows' = hw[1] /\ cols' = hw[2]
     /\ pc' = "fwd" /\ lvl' = 0 /\ trail' = << >> /\ UNCHANGED outcome
+\* the same call with the two selection options given as per-level masks (skip_hps, include_scale as lists):
+\* the level loop below is shared - the options must not influence it
+StartFwdMasks ==
+    /\ pc = "idle" /\ "fwdm" \in Apis
+    /\ \E hw \in HWSet, J \in 1 .. JMax :
+          /\ InShard(hw)
+          /\ \E skip \in SUBSET (1 .. J), incl \in SUBSET (1 .. J) :
+                call' = [api |-> "fwdm", H |-> hw[1], W |-> hw[2], J |-> J, skip |-> skip, incl |-> incl]
+          /\ rows' = hw[1] /\ cols' = hw[2]
+    /\ pc' = "fwd" /\ lvl' = 0 /\ trail' = << >> /\ UNCHANGED outcome
 \* level 1: replicate the last row / column for odd sizes; FWD_J1 keeps the size, highpasses are half size
 FwdLevel1 ==
     /\ pc = "fwd" /\ lvl = 0
@@ -174,9 +184,26 @@ RefTrail(r, c, level, J) ==
          ELSE <<[level |-> level, in_r |-> r, in_c |-> c, ext_r |-> r % 4 # 0, ext_c |-> c % 4 # 0,
                  lo_r |-> Ext4(r) \div 2, lo_c |-> Ext4(c) \div 2, hi_r |-> Ext4(r) \div 4, hi_c |-> Ext4(c) \div 4]>>
               \o RefTrail(Ext4(r) \div 2, Ext4(c) \div 2, level + 1, J)
-FwdPyramidOK == (pc = "done" /\ call.api = "fwd") => trail = RefTrail(call.H, call.W, 1, call.J)
+FwdPyramidOK == (pc = "done" /\ call.api \in {"fwd", "fwdm"}) => trail = RefTrail(call.H, call.W, 1, call.J)
 \* coldfilt needs multiples of 4: the extension rule guarantees it at every level >= 2
 FwdAlignOK == (pc = "fwd" /\ lvl >= 1 /\ lvl < call.J) => (Ext4(rows) % 4 = 0 /\ Ext4(cols) % 4 = 0 /\ rows % 2 = 0 /\ cols % 2 = 0)
+
+\* what the call hands back, as the code assembles it: `highs[j] = h` where FWD_J* returns the 0-dim placeholder for a
+\* skipped level; `if include_scale[j]: scales[j] = low`; `return scales if True in include_scale else low`
+ImplOuts(c) == [j \in 1 .. c.J |-> [hp    |-> IF j \in c.skip THEN "placeholder" ELSE "subbands",
+                                   scale |-> IF j \in c.incl THEN "lowpass" ELSE "placeholder"]]
+ImplYlKind(c) == IF c.incl # {} THEN "list" ELSE "tensor"
+\* C12: the options only select.  Declaratively: level j carries its six subbands unless skipped, the lowpass of the
+\* j-level transform iff requested, and the pyramid geometry is that of the plain call whatever the masks
+MaskSelectOK ==
+    (pc = "done" /\ call.api = "fwdm") =>
+        /\ trail = RefTrail(call.H, call.W, 1, call.J)
+        /\ \A j \in 1 .. call.J :
+              /\ (ImplOuts(call)[j].hp = "subbands") <=> (j \notin call.skip)
+              /\ (ImplOuts(call)[j].scale = "lowpass") <=> (j \in call.incl)
+\* named consequence users meet: with any intermediate lowpass requested the FINAL lowpass is only returned if it was
+\* requested too (yl becomes the list of scales; the last entry is a placeholder unless J \in incl)
+FinalLowpassReturned(c) == c.incl = {} \/ c.J \in c.incl
 
 (* ---- DTCWTInverse.forward on a forward-compatible pyramid; `absent` = levels passed as
         None / empty tensor / 0-dim placeholder, absLow = the lowpass is absent ---- *)
@@ -242,7 +269,7 @@ InvExtLostExact == (pc = "done" /\ call.api = "inv" /\ ~Shapeless(call) /\ ExtLo
 InvBwdGives(nl, nh) == [low |-> nl, high |-> nh]
 GradPresent == \A nl \in BOOLEAN, nh \in BOOLEAN : InvBwdGives(nl, nh).low = nl /\ InvBwdGives(nl, nh).high = nh
 
-Next == StartFwd \/ FwdLevel1 \/ FwdLevelJ \/ FwdReturn \/ StartInv \/ InvLevel \/ InvReturn
+Next == StartFwd \/ StartFwdMasks \/ FwdLevel1 \/ FwdLevelJ \/ FwdReturn \/ StartInv \/ InvLevel \/ InvReturn
 Spec == Init /\ [][Next]_vars
 
 (* ------------------------------ replay records --------------------------- *)
@@ -250,6 +277,9 @@ SetSeq(S) == SetToSortSeq(S, <)
 Record ==
     CASE call.api = "fwd" ->
            [kind |-> "dt2.fwd", H |-> call.H, W |-> call.W, J |-> call.J, trail |-> trail]
+      [] call.api = "fwdm" ->
+           [kind |-> "dt2.fwdm", H |-> call.H, W |-> call.W, J |-> call.J, skip |-> SetSeq(call.skip), incl |-> SetSeq(call.incl),
+            trail |-> trail, outs |-> ImplOuts(call), yl |-> ImplYlKind(call), final_low |-> FinalLowpassReturned(call)]
       [] call.api = "inv" ->
            [kind |-> "dt2.inv", H |-> call.H, W |-> call.W, J |-> call.J, absent |-> SetSeq(call.absent),
             absLow |-> call.absLow, akind |-> call.kind, outcome |-> outcome, out_r |-> rows, out_c |-> cols, trail |-> trail]
